@@ -194,6 +194,23 @@ func (s *Sched) Go(name string, f func()) {
 	<-reg
 }
 
+// WaitFree is for the free-running mode (a Sched that is never activated: every
+// point is a no-op yield, Go starts plain goroutines): it waits until all actors
+// have returned or the time is up.
+func (s *Sched) WaitFree(d time.Duration) bool {
+	end := time.Now().Add(d)
+	for time.Now().Before(end) {
+		s.mu.Lock()
+		done := s.finished == s.actors
+		s.mu.Unlock()
+		if done {
+			return true
+		}
+		time.Sleep(200 * time.Microsecond)
+	}
+	return false
+}
+
 // SetClock gives the execution a budget of virtual time advances.
 func (s *Sched) SetClock(ticks ...time.Duration) { s.ticks = ticks }
 
